@@ -113,12 +113,27 @@ impl CommitTree {
                 .filter_map(|i| leaves.get(*i).cloned())
                 .collect::<Vec<_>>();
             if leaves_to_prove.len() == indices_to_prove.len() {
-                if proof.verify(
-                    other_root.into(),
-                    indices_to_prove.as_slice(),
-                    leaves_to_prove.as_slice(),
-                    *length,
-                ) {
+                // The proof only shows that the leaves at the given
+                // indices match; when the other tree is not longer
+                // than this tree it is contained only when all of
+                // it's leaves are a prefix of this tree.
+                let is_prefix = match leaves.get(..*length) {
+                    Some(prefix) => MerkleTree::<Sha256>::from_leaves(prefix)
+                        .root()
+                        .map(|prefix_root| {
+                            &CommitHash(prefix_root) == other_root
+                        })
+                        .unwrap_or(false),
+                    None => true,
+                };
+                if is_prefix
+                    && proof.verify(
+                        other_root.into(),
+                        indices_to_prove.as_slice(),
+                        leaves_to_prove.as_slice(),
+                        *length,
+                    )
+                {
                     Ok(Comparison::Contains(indices_to_prove.to_vec()))
                 } else {
                     Ok(Comparison::Unknown)
